@@ -182,6 +182,8 @@ PROPS['C05'] = {
           'sorted 3-token map, arbitrary flags and (dangling) ids, 1 source/name/content; any lookup position; every accessor; any index'),
         H('c05_index_any', 'types', 'quick', 1200, 10,
           '2 sections with non-decreasing (also equal) offsets, each with or without a 1-token map, any position, any section index'),
+        H('c05_flatten_arith', 'types', 'quick', 900, 10,
+          'lifted per-token body of flatten, any token, any offsets (also overflowing ones): returns without panic, never a wrapped position'),
     ] + seg_harnesses([14, 8], [11]),
     'assumptions': ['post-parse stage only: inputs are the values serde_json would hand to the library, not bytes'] + SEG_ASSUME,
     'trusted': [S1],
@@ -197,10 +199,22 @@ PROPS['C08'] = {
         H('c08_lookup_2x1', 'types', 'quick', 1500, 10, '2 sections (strictly increasing offsets, any u32) x 1 token each, any position'),
         H('c08_lookup_1x2', 'types', 'quick', 1500, 10, '1 section (any offset) x 2 sorted tokens, any position'),
         H('c08_lookup_nomap', 'types', 'quick', 1500, 10, '2 sections, exactly one without a map, any position'),
+        H('c08_flat_step', 'types', 'quick', 900, 10,
+          'lifted per-token body of flatten with a recording mock builder: any token of a section map (2 sources: #0 with '
+          'contents, #1 without and ignored; 1 name; ids may dangle), any offsets whose sums fit u32, any mock answers'),
+        H('c08_agree', 'types', 'quick', 1800, 10,
+          '2 sections x 1 token, strictly increasing offsets, token of section 0 before section 1: flattened position (lifted body) '
+          'fed to the real lookup_token'),
     ],
-    'assumptions': ['sections built through SourceMapSection::new / SourceMapIndex::new with strictly increasing offsets'],
-    'trusted': [],
-    'outside': [],
+    'assumptions': ['sections built through SourceMapSection::new / SourceMapIndex::new with strictly increasing offsets',
+                    'L1: the loop headers of flatten (`for section in self.sections()`, `for token in map.tokens()`) and the final '
+                    'into_sourcemap are replaced by the harness; `builder` is a recording mock with the same method signatures',
+                    'S4: alloc::fmt::format stubbed (error message text is not the subject)'],
+    'trusted': ['S4'],
+    'outside': ['that flatten visits every section and token once and recurses into nested indexes (loop headers)',
+                'an unresolved section is an error (whole-flatten run timed out at 25 min: SourceMapBuilder hash maps)',
+                'de-duplication of source names and names across sections (interning)', 'ordering of the result (into_sourcemap, C04)',
+                'Hermes and nested-index sections'],
 }
 
 PROPS['C03'] = {
